@@ -393,6 +393,7 @@ struct BodyWriter {
             auto H = T->getHandler(i);
             json::Object h;
             h["t"] = H->getExceptionDecl() ? typeStr(H->getCaughtType()) : "...";
+            if (H->getExceptionDecl()) h["var"] = varObj(H->getExceptionDecl(), false);
             h["b"] = X(H->getHandlerBlock());
             hs.push_back(std::move(h));
          }
